@@ -640,6 +640,12 @@ func (s *Sim) opC17Relay() {
 		case r.Chance("ops", 1, 6):
 			epoch = epochs[r.Draw("ops", len(epochs))]
 		}
+		// new stream (old tapes read 0 = unchanged): claims for the OLDEST epoch still in memory, the
+		// case in which versions scheduled for the next epoch are farthest from the relay's epoch
+		if r.Draw("c17old", 4) == 1 {
+			epoch = epochs[0]
+			r.Probe("c17_relay_for_oldest_epoch_in_memory")
+		}
 		paired := s.pairedProvidersFor(signer, spec.Index)
 		if len(paired) > 0 {
 			prov = paired[r.Draw("ops", len(paired))]
